@@ -105,7 +105,11 @@ def refStep (r : IRef) (t0 : List String) (obs : String) : IRef × String :=
     match ki.toNat?.bind (fun i => r.keys[i]?), (obs.splitOn "=")[1]?.bind Bytes.ofHex with
     | some key, some msg =>
       let name := s!"signer{ki}"
-      let p : IParty := { key, trusted := [], algos := { speeds := [], allowUnencrypted := false }, nodeId := [] }
+      -- what the holder "enabled" is what its signed message advertises (the cipher list part, if the message has a well-formed one)
+      let adv := match InitMsg.readFields ((msg.drop 9).length + 1) (msg.drop 9) {} with
+        | .ok (f, _) => f.algos
+        | .error _ => none
+      let p : IParty := { key, trusted := [], algos := adv.getD { speeds := [], allowUnencrypted := false }, nodeId := [] }
       ({ r with parties := setS r.parties name p, atts := setS r.atts name ({ party := name, payload := [] } : AttRec),
                 msgs := r.msgs ++ [({ bytes := msg, sender := name } : MsgRec)] }, "-")
     | _, _ => (r, "-")
